@@ -307,12 +307,23 @@ class World(object):
         ps = clock.pending()
         return [c for c in ps if c.at == ps[0].at] if ps else []
 
+    @staticmethod
+    def in_range(dc):
+        """driver guard (no judgement): TLC computes with 32-bit integers, so a retry timer whose NEXT delay needs
+        factor^n * size >= 2^30 is not fired any more (the history simply ends earlier)"""
+        req = dc.args[0] if dc.args else None
+        iv = getattr(req, "interval", None)
+        k = getattr(iv, "_k", None)
+        if k is not None and hasattr(req, "encoded") and req.encoded is not None:
+            return k * len(req.encoded) < 2 ** 30 and k * getattr(iv, "factor", 1) < 2 ** 30
+        return True
+
     def drain(self, max_fires=200, horizon=None):
         """fire timers in deadline order until none is left or the budget is used up"""
         k = 0
         while clock.calls and k < max_fires:
             c = clock.pending()[0]
-            if horizon is not None and c.at > horizon:
+            if (horizon is not None and c.at > horizon) or not self.in_range(c):
                 break
             self.fire(c); k += 1
         return k
